@@ -111,6 +111,10 @@ class ThreadPool(object):
                     yield sys.exc_info()
             return
 
+        # each call works on its own queues: workers of an earlier call that was
+        # ended by an exception may still deliver their results
+        self.task_queue = Queue.Queue()
+        self.result_queue = Queue.Queue()
         self.pool = self._init_pool()
 
         i = 0
